@@ -29,3 +29,28 @@ Theorem C16_junit :
     disabled = length (filter (fun r => match r with RCancelled | RSkipped => true | _ => false end) rs).
 Proof. exact junit_totals_add_up. Qed.
 Print Assumptions C16_junit.
+
+(* ---- the driver itself (Driver.v): the premise [consistent] of C16_exit is a theorem about
+   everything the driver model can produce, its exit decision is [exit_status] of the results it
+   reported, and once the stream phase is over every file has been reported exactly once. *)
+From SLT Require Import Driver DriverInv DriverProofs.
+From Coq Require Import Permutation.
+
+Theorem C16_driver_results_consistent :
+  forall cf sched st tr, drun cf (dst0 cf) sched = (st, tr) ->
+    consistent (c_ff cf) (d_ctrlc st) false (results st).
+Proof. exact driver_results_consistent. Qed.
+Print Assumptions C16_driver_results_consistent.
+
+Theorem C16_driver_exit :
+  forall cf sched st tr, drun cf (dst0 cf) sched = (st, tr) ->
+    (exit_of st = 0 <-> all_ok (results st) /\ d_ctrlc st = false).
+Proof. exact driver_exit_truth. Qed.
+Print Assumptions C16_driver_exit.
+
+Theorem C16_driver_reports_each_file_once :
+  forall cf sched st tr, drun cf (dst0 cf) sched = (st, tr) ->
+    match d_phase st with DDrop _ | DClose | DEnd => True | _ => False end ->
+    Permutation (map fst (d_reported st)) (dbs_of cf).
+Proof. exact driver_reports_each_file_once. Qed.
+Print Assumptions C16_driver_reports_each_file_once.
